@@ -12,6 +12,7 @@
 package c04
 
 import (
+	"context"
 	"database/sql"
 	"errors"
 	"fmt"
@@ -21,6 +22,7 @@ import (
 
 	"gorm.io/gorm"
 	"gorm.io/gorm/clause"
+	"gorm.io/gorm/logger"
 	"pgregory.net/rapid"
 
 	"verif/internal/evid"
@@ -57,6 +59,39 @@ const (
 	opManual = "manual" // tx := db.Begin(); …; tx.Commit() / tx.Rollback()   (top level only)
 )
 
+// Sessions a step may derive from the handle it uses (Step.Sess). All of them
+// stay on the handle's connection pool / transaction.
+const (
+	sePrep      = "prep"      // h.Session(&gorm.Session{PrepareStmt: true})
+	sePlain     = "sess"      // h.Session(&gorm.Session{})
+	seNewDB     = "newdb"     // h.Session(&gorm.Session{NewDB: true})
+	seCtx       = "ctx"       // h.WithContext(ctx)
+	seSkipHooks = "skiphooks" // h.Session(&gorm.Session{SkipHooks: true})
+	seLogger    = "logger"    // h.Session(&gorm.Session{Logger: …})
+)
+
+var sessKinds = []string{sePrep, sePrep, sePlain, seNewDB, seCtx, seSkipHooks, seLogger}
+
+type ctxKey struct{}
+
+func derive(h *gorm.DB, kind string) *gorm.DB {
+	switch kind {
+	case sePrep:
+		return h.Session(&gorm.Session{PrepareStmt: true})
+	case sePlain:
+		return h.Session(&gorm.Session{})
+	case seNewDB:
+		return h.Session(&gorm.Session{NewDB: true})
+	case seCtx:
+		return h.WithContext(context.WithValue(context.Background(), ctxKey{}, "c04"))
+	case seSkipHooks:
+		return h.Session(&gorm.Session{SkipHooks: true})
+	case seLogger:
+		return h.Session(&gorm.Session{Logger: logger.Discard.LogMode(logger.Silent)})
+	}
+	return h
+}
+
 // Outcomes of a block body.
 const (
 	outNil      = "nil"      // return nil
@@ -72,6 +107,7 @@ type Step struct {
 	V       int64
 	Reuse   bool   // put/upd/del: then read through result.Session(&gorm.Session{NewDB: true}) of the handle the write returned
 	Via     int    // 0: the step goes through the block's own handle; n: through the handle of the n-th enclosing block (a captured variable – the same database transaction)
+	Sess    string // "" or the kind of session derived from the chosen handle through which the step is issued (same transaction)
 	Name    string // save point name
 	Child   *Body
 	Swallow bool // block: the parent ignores the child's error and goes on (otherwise it returns it)
@@ -126,8 +162,11 @@ func (s Step) render(sb *strings.Builder) {
 	if s.Via > 0 {
 		via = fmt.Sprintf("@^%d", s.Via)
 	}
+	if s.Sess != "" {
+		via += "~" + s.Sess
+	}
 	switch s.Op {
-	case opBlock:
+	case opBlock, opManual:
 	default:
 		defer sb.WriteString(via)
 	}
@@ -158,7 +197,7 @@ func (s Step) render(sb *strings.Builder) {
 			sb.WriteString("/recover")
 		}
 	case opManual:
-		sb.WriteString("M")
+		sb.WriteString("M" + via)
 		s.Child.render(sb)
 	}
 }
@@ -543,6 +582,12 @@ func (x *runner) runSteps(own *gorm.DB, b *Body, fr *frame) error {
 			x.class("handle:captured-enclosing")
 			x.class("handle:captured-enclosing:" + st.Op)
 		}
+		base := h
+		if st.Sess != "" {
+			h = derive(base, st.Sess)
+			x.class("session:" + st.Sess)
+			x.class("session:" + st.Sess + ":" + st.Op)
+		}
 		switch st.Op {
 		case opSP:
 			x.class("op:savepoint")
@@ -564,6 +609,17 @@ func (x *runner) runSteps(own *gorm.DB, b *Body, fr *frame) error {
 				x.harnessEr = "RollbackTo without save point generated"
 				continue
 			}
+			for _, later := range fr.sps[idx+1:] {
+				if later.name != st.Name && len(later.name) > 64 && len(st.Name) > 64 && later.name[:64] == st.Name[:64] {
+					x.class("shape:rollbackto-past-a-later-save-point-sharing-the-first-64-bytes")
+					if render(later.snap) != render(fr.sps[idx].snap) {
+						x.class("shape:rollbackto-past-a-later-save-point-sharing-the-first-64-bytes(writes-between)")
+					}
+				}
+			}
+			if len(st.Name) > 64 {
+				x.class("op:long-save-point-name")
+			}
 			err := h.RollbackTo(st.Name).Error
 			if x.takeFired() {
 				x.harnessEr = "fault fired in ROLLBACK TO"
@@ -581,7 +637,7 @@ func (x *runner) runSteps(own *gorm.DB, b *Body, fr *frame) error {
 					return v
 				}
 				x.class("parent:swallows-error")
-				if e := x.read(h, where+" (handle after failed child)"); e != nil {
+				if e := x.read(base, where+" (handle after failed child)"); e != nil {
 					return e
 				}
 			case 2:
@@ -589,7 +645,7 @@ func (x *runner) runSteps(own *gorm.DB, b *Body, fr *frame) error {
 					panic(pv)
 				}
 				x.class("parent:recovers-panic")
-				if e := x.read(h, where+" (handle after panicked child)"); e != nil {
+				if e := x.read(base, where+" (handle after panicked child)"); e != nil {
 					return e
 				}
 			}
@@ -905,19 +961,25 @@ func runCase(c Case) result {
 
 	// top level: steps on the root handle
 	for _, st := range c.Top.Steps {
+		root := d.DB
+		if st.Sess != "" {
+			root = derive(d.DB, st.Sess)
+			x.class("session:" + st.Sess)
+			x.class("session:" + st.Sess + ":top-level-" + st.Op)
+		}
 		switch st.Op {
 		case opBlock:
-			kind, _, pv := x.callBlock(d.DB, st.Child, true)
+			kind, _, pv := x.callBlock(root, st.Child, true)
 			if kind == 2 {
 				if _, ok := pv.(*panicVal); !ok {
 					panic(pv)
 				}
 			}
 		case opManual:
-			x.manual(d.DB, st.Child)
+			x.manual(root, st.Child)
 		default:
 			x.class("op:top-level-" + st.Op)
-			_ = x.primitive(d.DB, st, "top level")
+			_ = x.primitive(root, st, "top level")
 		}
 		// the connection is back in the pool after every top-level step
 		if in := d.SQL.Stats().InUse; in != 0 {
@@ -1085,6 +1147,44 @@ func (g *gen) via(depth int, child bool) int {
 	return 1 + uniform(g.rt, "up", depth-1)
 }
 
+// spNames is the pool of manual save point names of one block. Names are
+// private to the block (a child re-using a live name of its parent would
+// capture the parent's later RollbackTo – SQL semantics, not gorm's) and
+// distinct without regard to letter case (SQLite compares save point names
+// case-insensitively); within a block a name may be set again: the latest one
+// counts. style 0: short names; 1: long names (67–110 bytes) that share their
+// first 64+ bytes and differ only at the end; 2: everything, including
+// underscores, digits, mixed case and a long name that differs early.
+func spNames(id, style int) []string {
+	short := []string{fmt.Sprintf("s%dx", id), fmt.Sprintf("s%dy", id)}
+	prefix := fmt.Sprintf("save_point_of_block_%d_", id)
+	for len(prefix) < 64+(id*7)%40 {
+		prefix += "with_a_long_descriptive_name_"
+	}
+	prefix = prefix[:64+(id*7)%40]
+	long := []string{prefix + "_01", prefix + "_02", prefix + "_0003x"}
+	switch style {
+	case 0:
+		return short
+	case 1:
+		return long
+	}
+	early := fmt.Sprintf("e%d_", id)
+	for len(early) < 70 {
+		early += "differs_early_"
+	}
+	all := append(append([]string{}, short...), long...)
+	return append(all, fmt.Sprintf("_%d_tmp_9", id), fmt.Sprintf("Sp%d_MixedCase_2", id), early)
+}
+
+// sess decorates a step with a session derived from the handle it uses.
+func (g *gen) sess(percent int) string {
+	if uniform(g.rt, "sess?", 100) >= percent {
+		return ""
+	}
+	return sessKinds[uniform(g.rt, "sess", len(sessKinds))]
+}
+
 // body generates the function of a block at the given depth (1 = outermost).
 func (g *gen) body(depth int, manual bool) *Body {
 	b := &Body{ID: g.nextID}
@@ -1097,7 +1197,41 @@ func (g *gen) body(depth int, manual bool) *Body {
 	if depth == 1 {
 		primBelow, blockBelow = 40, 76 // the outermost body gets more children
 	}
+	spBelow := 86
+	if uniform(g.rt, "spheavy", 4) == 0 {
+		// a body that is mostly about save points
+		primBelow, blockBelow, spBelow = 40, 48, 74
+		if n < 4 {
+			n += 2
+		}
+	}
+	pool := spNames(b.ID, []int{0, 0, 0, 1, 1, 1, 1, 2, 2, 2}[uniform(g.rt, "spstyle", 10)])
 	var names []string
+	if g.budget >= 5 && uniform(g.rt, "spscenario", 8) == 0 {
+		// SavePoint(n1); write; SavePoint(n2); [write]; RollbackTo(n1 or n2) with two names of
+		// the pool (a RollbackTo past a later save point), then the ordinary steps
+		n1 := pool[uniform(g.rt, "spname", len(pool))]
+		n2 := pool[uniform(g.rt, "spname", len(pool))]
+		deco := func(st Step) Step {
+			st.Via = g.via(depth, false)
+			st.Sess = g.sess(20)
+			return st
+		}
+		b.Steps = append(b.Steps, deco(Step{Op: opSP, Name: n1}), deco(g.primitive(false)), deco(Step{Op: opSP, Name: n2}))
+		if rapid.Bool().Draw(g.rt, "write2") {
+			b.Steps = append(b.Steps, deco(g.primitive(false)))
+		}
+		names = []string{n1, n2}
+		target := n1
+		if uniform(g.rt, "target", 4) == 0 {
+			target = n2
+		}
+		if target == n1 && n1 != n2 {
+			names = names[:1]
+		}
+		b.Steps = append(b.Steps, deco(Step{Op: opRBTo, Name: target}))
+		g.budget -= len(b.Steps)
+	}
 	for i := 0; i < n && g.budget > 0; i++ {
 		g.budget--
 		r := uniform(g.rt, "kind", 100)
@@ -1105,24 +1239,25 @@ func (g *gen) body(depth int, manual bool) *Body {
 		case r < primBelow || (r < blockBelow && depth >= g.maxDepth):
 			st := g.primitive(false)
 			st.Via = g.via(depth, false)
+			st.Sess = g.sess(30)
 			b.Steps = append(b.Steps, st)
 		case r < blockBelow:
 			v := g.via(depth, true)
 			g.startIdx = append(g.startIdx, depth-1-v)
 			ch := g.body(depth+1, false)
 			g.startIdx = g.startIdx[:len(g.startIdx)-1]
-			b.Steps = append(b.Steps, Step{Op: opBlock, Child: ch, Via: v,
+			b.Steps = append(b.Steps, Step{Op: opBlock, Child: ch, Via: v, Sess: g.sess(20),
 				Swallow: uniform(g.rt, "swallow", 3) < 2,
 				Recover: rapid.Bool().Draw(g.rt, "recover")})
-		case r < 86:
-			// names are private to the block (a child re-using a live name of its
-			// parent would capture the parent's later RollbackTo – SQL semantics,
-			// not gorm's); within a block a name may repeat: the latest one counts
-			nm := fmt.Sprintf("s%d%s", b.ID, []string{"x", "y"}[uniform(g.rt, "spname", 2)])
+		case r < spBelow:
+			nm := pool[uniform(g.rt, "spname", len(pool))]
 			names = append(names, nm)
-			b.Steps = append(b.Steps, Step{Op: opSP, Name: nm, Via: g.via(depth, false)})
+			b.Steps = append(b.Steps, Step{Op: opSP, Name: nm, Via: g.via(depth, false), Sess: g.sess(20)})
 		case len(names) > 0:
-			nm := rapid.SampledFrom(names).Draw(g.rt, "rbname")
+			nm := names[0] // often the earliest one: rolls back past the later save points
+			if rapid.Bool().Draw(g.rt, "rbany") {
+				nm = names[uniform(g.rt, "rbname", len(names))]
+			}
 			// ROLLBACK TO keeps the named save point and drops the later ones
 			for j := len(names) - 1; j >= 0; j-- {
 				if names[j] == nm {
@@ -1130,10 +1265,11 @@ func (g *gen) body(depth int, manual bool) *Body {
 					break
 				}
 			}
-			b.Steps = append(b.Steps, Step{Op: opRBTo, Name: nm, Via: g.via(depth, false)})
+			b.Steps = append(b.Steps, Step{Op: opRBTo, Name: nm, Via: g.via(depth, false), Sess: g.sess(20)})
 		default:
 			st := g.primitive(false)
 			st.Via = g.via(depth, false)
+			st.Sess = g.sess(30)
 			b.Steps = append(b.Steps, st)
 		}
 	}
@@ -1150,9 +1286,9 @@ func genCase(rt *rapid.T) Case {
 	c.Cfg.Prepare = rapid.Bool().Draw(rt, "prepare")
 	c.Cfg.NoNest = uniform(rt, "nonest", 3) == 0
 	c.Cfg.SkipDef = rapid.Bool().Draw(rt, "skipdef")
-	budgets := []int{12, 10, 14, 8, 6, 4}
+	budgets := []int{14, 12, 16, 10, 8, 5}
 	if harness.Thorough() {
-		budgets = []int{16, 12, 20, 8, 24, 5}
+		budgets = []int{18, 14, 22, 10, 26, 6}
 	}
 	g := &gen{rt: rt, budget: budgets[uniform(rt, "budget", len(budgets))], nextID: 1, nextV: 10, maxDepth: 4}
 	nInit := uniform(rt, "init", 3)
@@ -1165,12 +1301,14 @@ func genCase(rt *rapid.T) Case {
 		switch {
 		case r < 65:
 			g.startIdx = []int{-1}
-			c.Top.Steps = append(c.Top.Steps, Step{Op: opBlock, Child: g.body(1, false)})
+			c.Top.Steps = append(c.Top.Steps, Step{Op: opBlock, Sess: g.sess(25), Child: g.body(1, false)})
 		case r < 82:
 			g.startIdx = []int{-1}
-			c.Top.Steps = append(c.Top.Steps, Step{Op: opManual, Child: g.body(1, true)})
+			c.Top.Steps = append(c.Top.Steps, Step{Op: opManual, Sess: g.sess(25), Child: g.body(1, true)})
 		default:
-			c.Top.Steps = append(c.Top.Steps, g.primitive(true))
+			st := g.primitive(true)
+			st.Sess = g.sess(25)
+			c.Top.Steps = append(c.Top.Steps, st)
 		}
 	}
 	if uniform(rt, "trailer", 5) < 3 {
@@ -1184,7 +1322,7 @@ func genCase(rt *rapid.T) Case {
 	// fault plan: aim at a call that exists in the fault-free run
 	w := walk(c)
 	kinds := []string{fNone, fNone, fBegin, fCommit, fSavepoint, fSavepoint, fStmt, fStmt, fStmt}
-	if c.Cfg.Prepare {
+	if c.Cfg.Prepare || usesSession(&c.Top, sePrep) {
 		kinds = append(kinds, fPrepare)
 	}
 	kind := kinds[uniform(rt, "fault", len(kinds))]
@@ -1216,6 +1354,15 @@ func genCase(rt *rapid.T) Case {
 	return c
 }
 
+func usesSession(b *Body, kind string) bool {
+	for _, st := range b.Steps {
+		if st.Sess == kind || (st.Child != nil && usesSession(st.Child, kind)) {
+			return true
+		}
+	}
+	return false
+}
+
 func ownSavepoints(b *Body) {
 	for i := range b.Steps {
 		if b.Steps[i].Op == opSP {
@@ -1229,7 +1376,7 @@ func ownSavepoints(b *Body) {
 
 const rule = "C04: programs on a key→value table: 1-3 top-level steps (db.Transaction tree of depth ≤4, manual Begin…Commit/Rollback, single write/read), " +
 	"block bodies of put/rawput/upd/del/read/SavePoint/RollbackTo/child-block steps ending in return nil | return error | panic, parents returning or swallowing a child's error " +
-	"and optionally recovering its panic, every step inside a block going through the block's own handle or the captured handle of any enclosing block (same transaction); configuration bits PrepareStmt, DisableNestedTransaction, SkipDefaultTransaction; fault plan none or the k-th BEGIN/COMMIT/SAVEPOINT/statement/PREPARE " +
+	"and optionally recovering its panic, every step inside a block going through the block's own handle or the captured handle of any enclosing block (same transaction), optionally through a session derived from that handle (Session{PrepareStmt}, Session{}, Session{NewDB}, WithContext, Session{SkipHooks}, Session{Logger}); manual save point names short, long (67-110 bytes sharing the first 64+ bytes), with digits/underscores/mixed case, private per block; configuration bits PrepareStmt, DisableNestedTransaction, SkipDefaultTransaction; fault plan none or the k-th BEGIN/COMMIT/SAVEPOINT/statement/PREPARE " +
 	"driver call fails (never ROLLBACK / ROLLBACK TO); non-trivial = nesting depth ≥2 reached and at least one failure (block returning an error or panicking, fired fault) with successful writes both before and after it; " +
 	"distinct = configuration + fault plan + initial rows + program text"
 
